@@ -194,7 +194,7 @@ def gen_case(rng, cid):
     P = gen_params(rng, eng)
     pts, ds, scalar = gen_profile(rng, eng, P)
     drv = rng.choice(['ci', 'ci', 'cf', 'cf', 'fd_fraction', 'fd_value', 'fd_fraction'])
-    n_iter = rng.choice([1, 1, 2, 2, 3, 5, 10, 10])
+    n_iter = rng.choice([0, 1, 1, 2, 2, 3, 5, 10, 10])
     mref = P['ref_mass']
     c = {'id': cid, 'engine': eng, 'params': P, 'pts': pts, 'ds': ds, 'scalar_dx': scalar, 'driver': drv, 'n_iter': n_iter}
     if drv == 'ci':
@@ -206,7 +206,7 @@ def gen_case(rng, cid):
         lf = rng.uniform(0.3, 1.0)
         mtow = P['max_mass'] * rng.choice([1.0, 1.0, 0.8])
         r = rng.random()
-        if r < 0.35:        # MTOW limit active, or reached only once the reserve is added
+        if r < (0.6 if drv == 'fd_value' else 0.35):        # MTOW limit active, or reached only by the reserve
             mtow = (oew + P['max_payload'] * lf) * rng.choice([1.0, 1.01, 1.03, 1.06])
         c.update(m=mref * rng.uniform(0.75, 1.25), mtow=mtow, oew=oew,
                  mpl=P['max_payload'], lf=lf,
@@ -265,8 +265,8 @@ def arrays(c):
                 segment_distance=(float(c['ds'][0]) if c['scalar_dx'] and c['ds'] else np.array([float(d) for d in c['ds']])))
 
 
-def run_driver(model, c, n_iter):
-    a = arrays(c)
+def run_driver(model, c, n_iter, a=None, raw=False):
+    a = arrays(c) if a is None else a
     d = c['driver']
     if d == 'ci':
         r = model.iterate_flight_simulation_constant_initial_mass(**a, initial_mass=c['m'], n_iter=n_iter)
@@ -280,7 +280,7 @@ def run_driver(model, c, n_iter):
         r = model.iterate_flight_simulation_fuel_burn_dependent_initial_mass_rf_value(
             **a, initial_mass_estimate=c['m'], mtow=c['mtow'], oew=c['oew'], mpl=c['mpl'], load_factor=c['lf'],
             reserve_fuel=c['reserve'], n_iter=n_iter)
-    return [float(x) for x in r]
+    return r if raw else [float(x) for x in r]
 
 
 _models: dict = {}
@@ -299,27 +299,32 @@ def impl_case(c, own):
             if c.get('model_key') is not None:
                 _models[key] = model
         k = c['n_iter']
-        out = {'result': run_driver(model, c, k)}
+        # the caller's arrays are created once and handed to every call of this case, as a caller would do
+        a = arrays(c)
+        pristine = {n_: (v.copy() if hasattr(v, 'copy') else v) for n_, v in a.items()}
+        held = run_driver(model, c, k, a, raw=True)          # the returned ndarray is kept across the later calls
+        out = {'result': [float(x) for x in held]}
         fd = c['driver'].startswith('fd')
         base = 0 if fd else 1            # smallest meaningful n_iter: one update of the constant vector
         # the iterate the last update started from: the result for the largest j < k that differs (early exits repeat)
         j = max(k, base) - 1
         prev = None
         while j >= base:
-            cand = run_driver(model, c, j)
+            cand = run_driver(model, c, j, a)
             if cand != out['result']:
                 prev = cand
                 break
             j -= 1
         out['prev'] = prev
         out['installed'] = bool(fd and prev is not None)
-        a = arrays(c)
         mass = np.array(out['result'])
         out['thrust'] = [float(x) for x in np.atleast_1d(model.calculate_thrust(
             mass, a['temperature'], a['altitude'], a['v_tas'], a['rocd'], a['acceleration'], a['in_cruise']))]
         out['sgr'] = [float(x) for x in np.atleast_1d(model.calculate_specific_ground_range(
             mass, a['temperature'], a['altitude'], a['v_tas'], a['rocd'], a['acceleration'], a['in_cruise'],
             a['groundspeed']))]
+        out['mutated'] = [n_ for n_, v in a.items() if not np.array_equal(np.asarray(v), np.asarray(pristine[n_]))]
+        out['result_changed_later'] = [float(x) for x in held] != out['result']
         return out
     except Exception as e:  # noqa: BLE001
         return {'error': [type(e).__name__, str(e)[:200]]}
@@ -346,9 +351,10 @@ def coq_points(pts):
 def coq_case(c, flags):
     sh = 'true' if flags.get('shift_whole_vector') else 'false'
     bw = 'true' if flags.get('backward_dx_reversed') else 'false'
+    ps = 'true' if flags.get('piston_per_second') else 'false'
     n = len(c['pts'])
     pre = (f'let P := {coq_params(c["params"])} in let pts := {coq_points(c["pts"])} in\n'
-           f' let sgr := @bada_sgr FNum {c["engine"]} P pts in let ds := {fl(c["ds"])} in\n')
+           f' let sgr := @bada_sgr FNum {ps} {c["engine"]} P pts in let ds := {fl(c["ds"])} in\n')
     d = c['driver']
     if d == 'ci':
         run = f'@iterate_ci FNum sgr ds {nat(n)} {coq_float(c["m"])} {nat(c["n_iter"])}'
@@ -426,7 +432,9 @@ def judge(chk: Check, c, io, tag):
                         return F18_SIG if first else (FA_SIG if bw else FB_SIG)
         return None
 
-    if d == 'ci' and r[0] != c['m']:
+    if d.startswith('fd') and not fd and r[0] != c['m']:
+        bad = f'without an iteration (n_iter = {k}) the profile starts at {r[0]!r}, not at the given estimate {c["m"]!r}'
+    elif d == 'ci' and r[0] != c['m']:
         bad = f'mass profile starts at {r[0]!r}, prescribed initial mass {c["m"]!r}'
     elif d == 'cf' and r[-1] != c['m']:
         bad = f'mass profile ends at {r[-1]!r}, prescribed final mass {c["m"]!r}'
@@ -503,6 +511,12 @@ def process(chk: Check, cases, flags):
         if 'error' in io:
             chk.fail(f'{c["driver"]} raised {io["error"][0]}: {io["error"][1]}', {'case': c, 'impl': io, 'with': used})
             continue
+        if io.get('mutated'):
+            chk.fail(f'{c["driver"]} modified the caller\'s input array(s) {io["mutated"]} in place: the returned profile no '
+                     f'longer belongs to the inputs the caller holds', {'case': c, 'impl': io, 'with': used})
+        if io.get('result_changed_later'):
+            chk.fail(f'the mass vector returned by {c["driver"]} was changed by a later call on the same model object',
+                     {'case': c, 'impl': io, 'with': used})
         judge(chk, c, io, used)
         if v is None:
             continue
@@ -549,7 +563,9 @@ def run(chk: Check):
     chk.notes['tree_state'] = {'fuel_dependent_drivers': 'shift whole vector (repaired)' if flags.get('shift_whole_vector')
                                else 'overwrite mass[0] only (F18 present)',
                                'backward_update': 'segment lengths reversed with the integrand (repaired)'
-                               if flags.get('backward_dx_reversed') else 'segment lengths in forward order (FC19a present)'}
+                               if flags.get('backward_dx_reversed') else 'segment lengths in forward order (FC19a present)',
+                               'piston_fuel_flow': 'C_f1 / 60, kg/s (repaired)' if flags.get('piston_per_second')
+                               else 'C_f1 as it is, kg/min used as kg/s (FC19b present)'}
     cases = load_corpus(chk)
     for i in range(chk.n(150, 1500)):
         c = gen_case(chk.rng, 1000 + 2 * i)
